@@ -3145,6 +3145,11 @@ class C03(Check):
         for it in range(n):
             desc = gen_smooth_ode(self.rng)
             x0, u, p, t0, T = self.point(desc)
+            # the simulator rescales time (t = t0 + tau*dt): a start time of 0 or a length of 1 would hide a wrong rescaling
+            if t0 == 0:
+                t0 = 0.75
+            if T == 1.0:
+                T = [0.5, 0.75, 1.25][it % 3]
             xr, qr = reference_flow(desc, x0, u, p, t0, T)
             b = B.build(copy.deepcopy(desc), transcribe=False)
             with B.quiet():
